@@ -108,6 +108,13 @@ def check(P, R):
     # BaseResponse.__init__: headers via self.headers.append
     bi = P.func(f'{RS}:BaseResponse.__init__')
     fors = [n for n in walk_shallow(bi.node) if isinstance(n, ast.For)]
+    for c_ in walk_shallow(bi.node):
+        if isinstance(c_, ast.Call) and isinstance(c_.func, ast.Attribute) and dotted(c_.func.value) in ('self.headers', 'self._headers', 'self.headers.dict') \
+                and c_.func.attr in ('update', '__ior__') and c_.args:
+            from_args = any(not isinstance(d_, ast.AST) and d_.kind == 'param' and d_.name != 'self' for (d_, _) in bi.rd.closure(c_.args[0], bi.cfg.node_of_stmt(c_)[0]))
+            R.ob('C14.b', bi, c_, not from_args, text=f'{short(c_)}', detail='' if not from_args else
+                 'constructor header arguments are bulk-loaded with update(), which stores the values as they are: CR / LF / NUL and non-scalar types are accepted '
+                 'and emitted', why='a value offered through the response constructor arguments is guarded like any other setter', key_extra='ctor-update')
     R.require(len(fors) >= 1, 'BaseResponse.__init__: header loops not found')
     # both header sources (the positional mapping / pair list and the keyword headers) are iterated
     seen_src = ' '.join(T.xsrc(bi, lp_.iter, bi.cfg.nodes_for(lp_)[0]) for lp_ in fors)
